@@ -46,7 +46,7 @@ class SeqPart(Part):
             "distinct program digests that contain >=1 state-changing call and >=1 focus call of the property")
 
     def __init__(self, prop, prof=None, focus=None, mp=None, name=None, weight=1.0, probes=True,
-                 hooks=None):
+                 hooks=None, monitor=False, prologue=None, ro_snapshot=False):
         Part.__init__(self, prop)
         self.prof = prof or prop
         self.focus = focus
@@ -54,6 +54,7 @@ class SeqPart(Part):
         self.weight = weight
         self.probes = probes
         self.hooks = hooks
+        self.kw = dict(monitor=monitor, prologue=prologue, ro_snapshot=ro_snapshot)
         if name:
             self.name = name
 
@@ -62,14 +63,14 @@ class SeqPart(Part):
 
     def run(self, prog):
         hooks = self.hooks(prog) if callable(self.hooks) else self.hooks
-        res = engines.run_seq(prog, probes=self.probes, hooks=hooks)
+        res = engines.run_seq(prog, probes=self.probes, hooks=hooks, **self.kw)
         if res.violations and prog.get("knobs", {}).get("mp"):
             # C16 is differential: a disagreement seen only in multiprocessing mode belongs to
             # C16 alone; one that the threading mode shows too belongs to the other properties.
             import copy
             p2 = copy.deepcopy(prog)
             p2["knobs"]["mp"] = False
-            r2 = engines.run_seq(p2, probes=self.probes, hooks=hooks)
+            r2 = engines.run_seq(p2, probes=self.probes, hooks=hooks, **self.kw)
             sigs2 = set((v.sig, v.step) for v in r2.violations)
             for v in res.violations:
                 if (v.sig, v.step) in sigs2:
